@@ -14,8 +14,10 @@ def evalHeatKernel(dgm1, dgm2, sigma):
     Evaluate the continuous heat-based kernel between dgm1 and dgm2 (more correct than L2 on the discretized version above but may be slower because can't exploit fast matrix multiplication when evaluating many, many kernels)
     """
     kSigma = 0
-    # float: (p - q) ** 2 wraps around / overflows for unsigned or narrow
-    # integer diagrams
+    # float: 8 * sigma wraps around for a bandwidth held as a narrow NumPy
+    # integer (np.int8(16), np.uint8(32)), and (p - q) ** 2 wraps around /
+    # overflows for unsigned or narrow integer diagrams
+    sigma = float(sigma)
     I1 = np.array(dgm1, dtype=float)
     I2 = np.array(dgm2, dtype=float)
     for i in range(I1.shape[0]):
